@@ -295,11 +295,6 @@ Proof.
   - intros Hi. apply Sq. cbn. now rewrite Hi.
 Qed.
 
-(* a bare acknowledgement or a short / corrupt frame is never what is returned: the
-   frame x above has at least 6 bytes and passes both checksums.  In particular: *)
-Lemma unwrap_ack_not_returned f : unwrap f = Ok [] -> forall h o, rx_filter h [] o <> Ok true.
-Proof. intros _ h o. cbn. discriminate. Qed.
-
 (* ------------------------------------------------------------------------- *)
 (* sequence numbers                                                            *)
 (* ------------------------------------------------------------------------- *)
